@@ -211,22 +211,27 @@ Example ex_cache : exists g w,
   c_miss (fst w) = 1.
 Proof. eexists. eexists. split; vm_compute; reflexivity. Qed.
 
-(* two threads: thread 1 gets the lock first although thread 0 invoked first *)
-Example ex_conc : exists c0 cf,
-  lru_init 2 = Ok c0 /\
-  exec lru_step (init_conf c0 0)
-    [LInv 0 (Put 1 (mkAns 11 50)); LInv 1 (Get 1); LAcq 1; LEnv 2; LBody 1 (Get 1) [1]; LRel 1;
-     LAcq 0; LBody 0 (Put 1 (mkAns 11 50)) []; LRes 1 (Get 1) RNone; LRel 0] cf /\
-  cf_now cf = 2 /\ dkeys (l_dict (cf_obj cf)) = [1].
-Proof.
-  eexists. eexists. split; [vm_compute; reflexivity|]. split.
-  - repeat (eapply E_cons; [first
-      [ eapply S_inv; reflexivity
-      | eapply S_acq; reflexivity
-      | eapply S_body; [reflexivity|reflexivity|repeat constructor; lia|vm_compute; reflexivity]
-      | eapply S_rel; reflexivity
-      | eapply S_res; reflexivity
-      | eapply S_env; lia ]|]).
-    apply E_nil.
-  - vm_compute. split; reflexivity.
-Qed.
+(* an executable scheduler is sound for `exec`: concrete interleavings exist *)
+Theorem exec_fun_is_exec : forall ls cf ls' cf',
+  exec_fun lru_step ls cf = Some (ls', cf') -> exec lru_step cf ls' cf'.
+Proof. exact (exec_fun_sound lru_step). Qed.
+Print Assumptions exec_fun_is_exec.
+
+(* two threads: thread 1 gets the lock first although thread 0 invoked first; the sequential
+   witness is  time+2 ; get(1) ; put(1) *)
+Definition ex_sched : list label :=
+  [LInv 0 (Put 1 (mkAns 11 50)); LInv 1 (Get 1); LAcq 1; LEnv 2; LBody 1 (Get 1) [1]; LRel 1;
+   LAcq 0; LBody 0 (Put 1 (mkAns 11 50)) []; LRes 1 (Get 1) RNone; LRel 0].
+
+Example ex_conc :
+  match lru_init 2 with
+  | Ok c0 =>
+      match exec_fun lru_step ex_sched (init_conf c0 0) with
+      | Some (ls, cf) =>
+          cf_now cf = 2 /\ dkeys (l_dict (cf_obj cf)) = [1] /\ responses 1 ls = [RNone] /\
+          witness ls = [Adv 2; Call (Get 1) [1]; Call (Put 1 (mkAns 11 50)) []]
+      | None => False
+      end
+  | _ => False
+  end.
+Proof. vm_compute. repeat split. Qed.
